@@ -16,6 +16,7 @@ import (
 	"fmt"
 	"hash/fnv"
 	"os"
+	"path"
 	"path/filepath"
 	"sort"
 	"strconv"
@@ -263,8 +264,26 @@ func LoadFindings(path string) []Finding {
 
 // IsKnown tells whether sig is listed as an open known finding.
 func (c *Collector) IsKnown(sig string) bool {
-	_, ok := c.known[sig]
-	return ok
+	return c.knownKey(sig) != ""
+}
+
+// knownKey returns the key of the open known finding that covers sig: the
+// signature itself, or a listed pattern in which '*' stands for any run of
+// characters inside one '/'-separated segment (path.Match syntax), e.g.
+// fold/*/int/*/neg*/* = "any folded operator on a signed type with a negative
+// constant operand".
+func (c *Collector) knownKey(sig string) string {
+	if _, ok := c.known[sig]; ok {
+		return sig
+	}
+	for key := range c.known {
+		if strings.ContainsAny(key, "*?[") {
+			if ok, err := path.Match(key, sig); err == nil && ok {
+				return key
+			}
+		}
+	}
+	return ""
 }
 
 func hash64(s string) uint64 {
@@ -345,11 +364,11 @@ func (c *Collector) Record(unit string, cs interface{}, out Outcome) bool {
 		c.distinct[hash64(unit+"\x00"+key)] = struct{}{}
 	}
 	if out.Err != "" {
-		if _, ok := c.known[out.Sig]; ok {
-			c.knownSeen[out.Sig]++
-			if _, have := c.knownSample[out.Sig]; !have {
-				c.knownSample[out.Sig] = marshalSample(map[string]interface{}{
-					"case": cs, "what": out.Err})
+		if key := c.knownKey(out.Sig); key != "" {
+			c.knownSeen[key]++
+			if _, have := c.knownSample[key]; !have {
+				c.knownSample[key] = marshalSample(map[string]interface{}{
+					"case": cs, "what": out.Err, "sig": out.Sig})
 			}
 			return false
 		}
